@@ -231,7 +231,8 @@ def _tracked_booleans(fn: ast.AST) -> List[str]:
     return sorted(used)
 
 
-def interp_function(fi: FuncInfo, role: str, callable_args: Set[str], helpers: Dict[str, Set[int]]) -> Tuple[List[str], int]:
+def interp_function(fi: FuncInfo, role: str, callable_args: Set[str], helpers: Dict[str, Set[int]], track_state: bool = False,
+                    fresh_properties: Optional[Set[str]] = None) -> Tuple[List[str], int]:
     ctx = fi.params[0]
     tracked = _tracked_booleans(fi.node)
     all_problems: List[str] = []
@@ -259,7 +260,12 @@ def interp_function(fi: FuncInfo, role: str, callable_args: Set[str], helpers: D
             if len({t.split("==")[0].strip() for t in eq_true}) < len(eq_true):
                 continue
             npaths += 1
-            si = StorageInterp([a for a in fi.params[1:]], callable_args, helpers)
+            si = StorageInterp([a for a in fi.params[1:]], callable_args, helpers, self_name=(fi.params[0] if track_state else None))
+            if track_state and fresh_properties:
+                # properties that compute a fresh tensor on every read are not state
+                for pn in fresh_properties:
+                    tv = si.fresh("local")
+                    si.state_sids[pn] = tv.sid
             resolver = _ResolveIfExp(assignment)
             for s in p.steps:
                 node = s.node
